@@ -58,5 +58,6 @@ BlanksKept == (Good /\ cfg.weight = 0) =>
    SumNat([r \in DOMAIN TheBag |-> TheBag[r] * Cardinality({k \in 1..Len(r) : r[k] = Blank})], DOMAIN TheBag)
      = SumNat([i \in 1..N |-> Cardinality({k \in 1..Len(RC) : rows[i][RC[k]] = Blank})], 1..N)
 (* the result does not depend on the order of the rows *)
+BlockRowsAgree == LoadCSVR(TRUE, rows, cfg, [i \in 1..Len(rows) |-> 1]) = Out      \* multiplicity 1 everywhere is the plain table
 OrderIrrelevant == Good => CsvBag(Reverse(rows), cfg) = TheBag
 =============================================================================
